@@ -246,14 +246,16 @@ def SyncRun (nk : Nat) (b : Int) (evs : List Event) (f : K → Nat → Nat → P
   ∀ k q a, L.addr nk = some a → k.blocking = decide (b ≠ 0) →
     lrun (.sync k q a) (evs.filterMap (absEv L)) = some (f k q a)
 
-/-- result of the loop: what the caller of `sync_next` needs -/
-def SyncPost (nk : Nat) (b : Int) (env : Env) (out : Out) (evs : List Event) : Prop :=
-  (∀ v ∈ out.inp, Typed L v) ∧ (∀ m, m ≠ .glob "&attempt" → out.env.priv m = env.priv m) ∧
+/-- result of the loop: what the caller of `sync_next` needs (no typing assumption on the oracle: the code never
+dereferences what it loads; the decoding `x` of the value found is universally quantified) -/
+def SyncPost (nk : Nat) (b : Int) (env : Env) (inp : List Val) (out : Out) (evs : List Event) : Prop :=
+  (∀ v ∈ out.inp, v ∈ inp) ∧ (∀ m, m ≠ .glob "&attempt" → out.env.priv m = env.priv m) ∧
   (∃ c', out.env.priv (.glob "&attempt") = some (.int c')) ∧
   (((out.ctl = .blocked ∨ out.ctl = .fuel) ∧ SyncRun L nk b evs fun k q a => .sync k q a) ∨
    (out.ctl = .ret (some (.int (-1))) ∧ b = 0 ∧ SyncRun L nk b evs syncWbPc) ∨
-   (∃ v x, out.ctl = .normal ∧ out.env.vars "next" = some v ∧ dec L v = some x ∧ x ≠ 0 ∧
-      SyncRun L nk b evs fun k q a => syncGotPc k q a x))
+   (∃ v, out.ctl = .normal ∧ out.env.vars "next" = some v ∧ v ≠ .int 0 ∧ v ∈ inp ∧
+      .ld (.field (.obj nk) "next") v 1 ∈ evs ∧
+      ∀ x, dec L v = some x → SyncRun L nk b evs fun k q a => syncGotPc k q a x))
 
 /-- one iteration of the loop body -/
 theorem syncBody_exec (fuel nk : Nat) (b c : Int) (env : Env) (inp : List Val)
@@ -301,26 +303,26 @@ theorem syncBody_exec (fuel nk : Nat) (b c : Int) (env : Env) (inp : List Val)
 theorem sync_loop (fuel nk : Nat) (b : Int) (n : Nat) :
     ∀ (env : Env) (inp : List Val) (acc : List Event) (c : Int),
       env.vars "node" = some (.ptr (.obj nk)) → env.vars "blocking" = some (.int b) →
-      env.priv (.glob "&attempt") = some (.int c) → (∀ v ∈ inp, Typed L v) →
+      env.priv (.glob "&attempt") = some (.int c) →
       ∃ out evs, iterate (fun e i => exec fuel syncBody e i) n env inp acc = .ok out ∧ out.events = acc ++ evs ∧
-        SyncPost L nk b env out evs := by
+        SyncPost L nk b env inp out evs := by
   induction n with
   | zero =>
-    intro env inp acc c h1 h2 hp hwt
-    exact ⟨_, [], rfl, by simp, hwt, fun _ _ => rfl, ⟨c, hp⟩, Or.inl ⟨Or.inr rfl, fun k q a ha hk => rfl⟩⟩
+    intro env inp acc c h1 h2 hp
+    exact ⟨_, [], rfl, by simp, fun _ h => h, fun _ _ => rfl, ⟨c, hp⟩, Or.inl ⟨Or.inr rfl, fun k q a ha hk => rfl⟩⟩
   | succ n ih =>
-    intro env inp acc c h1 h2 hp hwt
+    intro env inp acc c h1 h2 hp
     obtain ⟨o, ho, hpriv, ⟨c', hc'⟩, hsub, hcase⟩ := syncBody_exec L fuel nk b c env inp h1 h2 hp
-    have hwt' : ∀ v ∈ o.inp, Typed L v := fun v hv => hwt v (hsub v hv)
     simp only [iterate, ho, bind, Except.bind]
     rcases hcase with ⟨rfl, hev, hctl⟩ | ⟨v, hhd, hv, hev, hctl, hnext⟩ | ⟨evs, hhd, hev, hf, hb⟩
     · simp only [hctl]
-      exact ⟨_, [], rfl, by simp [hev], hwt', hpriv, ⟨c', hc'⟩, Or.inl ⟨Or.inl rfl, fun k q a ha hk => rfl⟩⟩
+      exact ⟨_, [], rfl, by simp [hev], hsub, hpriv, ⟨c', hc'⟩, Or.inl ⟨Or.inl rfl, fun k q a ha hk => rfl⟩⟩
     · simp only [hctl]
-      obtain ⟨x, hx⟩ := hwt v (by cases inp <;> simp_all)
+      have hmem : v ∈ inp := by cases inp <;> simp_all
+      refine ⟨_, o.events, rfl, rfl, hsub, hpriv, ⟨c', hc'⟩,
+        Or.inr (Or.inr ⟨v, rfl, hnext, hv, hmem, by simp [hev], ?_⟩)⟩
+      intro x hx k q a ha hk
       have hx0 : x ≠ 0 := fun e => hv (dec_eq_zero L (e ▸ hx))
-      refine ⟨_, o.events, rfl, rfl, hwt', hpriv, ⟨c', hc'⟩, Or.inr (Or.inr ⟨v, x, rfl, hnext, hx, hx0, ?_⟩)⟩
-      intro k q a ha hk
       simp [hev, absEv, decNext, decTail, hx, ha, List.filterMap_cons, lrun, lstep, hx0]
     · have hstay : ∀ a : Nat, L.addr nk = some a → ∀ rest : List Event,
           (.ld (.field (.obj nk) "next") (.int 0) 1 :: (evs ++ rest)).filterMap (absEv L) =
@@ -329,60 +331,61 @@ theorem sync_loop (fuel nk : Nat) (b : Int) (n : Nat) :
         simp [absEv, decNext, decTail, dec, ha, List.filterMap_cons, List.filterMap_append, hf]
       rcases hb with ⟨hb0, hctl⟩ | ⟨hb0, hctl | ⟨hctl, h1', h2'⟩⟩
       · simp only [hctl]
-        refine ⟨_, o.events, rfl, rfl, hwt', hpriv, ⟨c', hc'⟩, Or.inr (Or.inl ⟨rfl, hb0, ?_⟩)⟩
+        refine ⟨_, o.events, rfl, rfl, hsub, hpriv, ⟨c', hc'⟩, Or.inr (Or.inl ⟨rfl, hb0, ?_⟩)⟩
         intro k q a ha hk
         have := hstay a ha []
         simp only [List.append_nil] at this
         simp [hev, this, lrun, lstep, hk, hb0]
       · simp only [hctl]
-        refine ⟨_, o.events, rfl, rfl, hwt', hpriv, ⟨c', hc'⟩, Or.inl ⟨Or.inl rfl, ?_⟩⟩
+        refine ⟨_, o.events, rfl, rfl, hsub, hpriv, ⟨c', hc'⟩, Or.inl ⟨Or.inl rfl, ?_⟩⟩
         intro k q a ha hk
         have := hstay a ha []
         simp only [List.append_nil] at this
         simp [hev, this, lrun, lstep, hk, hb0]
       · simp only [hctl]
-        obtain ⟨out, evs', hit, hevs, hwt2, hpriv2, hc2, hpost⟩ := ih o.env o.inp (acc ++ o.events) c' h1' h2' hc' hwt'
+        obtain ⟨out, evs', hit, hevs, hsub2, hpriv2, hc2, hpost⟩ := ih o.env o.inp (acc ++ o.events) c' h1' h2' hc'
         have hpre : ∀ f, SyncRun L nk b evs' f → SyncRun L nk b (o.events ++ evs') f := by
           intro f hf' k q a ha hk
           rw [hev, List.cons_append, hstay a ha evs']
           simp [lrun, lstep, hk, hb0, hf' k q a ha hk]
-        refine ⟨out, o.events ++ evs', hit, by simp [hevs], hwt2, ?_, hc2, ?_⟩
+        refine ⟨out, o.events ++ evs', hit, by simp [hevs], fun v hv => hsub v (hsub2 v hv), ?_, hc2, ?_⟩
         · intro m hm; rw [hpriv2 m hm, hpriv m hm]
-        · rcases hpost with ⟨hc, hr⟩ | ⟨hc, hb', hr⟩ | ⟨v, x, hc, hn, hx, hx0, hr⟩
+        · rcases hpost with ⟨hc, hr⟩ | ⟨hc, hb', hr⟩ | ⟨v, hc, hn, hv0, hmem, hld, hr⟩
           · exact Or.inl ⟨hc, hpre _ hr⟩
           · exact Or.inr (Or.inl ⟨hc, hb', hpre _ hr⟩)
-          · exact Or.inr (Or.inr ⟨v, x, hc, hn, hx, hx0, hpre _ hr⟩)
+          · exact Or.inr (Or.inr ⟨v, hc, hn, hv0, hsub v hmem, by simp [hld], fun x hx => hpre _ (hr x hx)⟩)
 
 /-- what a caller of `___cds_wfcq_node_sync_next(node = obj nk, blocking = b)` gets -/
-def SyncRes (nk : Nat) (b : Int) (env : Env) (out : Out) : Prop :=
-  (∀ v ∈ out.inp, Typed L v) ∧ (∀ m, m ≠ .glob "&attempt" → out.env.priv m = env.priv m) ∧
+def SyncRes (nk : Nat) (b : Int) (env : Env) (inp : List Val) (out : Out) : Prop :=
+  (∀ v ∈ out.inp, v ∈ inp) ∧ (∀ m, m ≠ .glob "&attempt" → out.env.priv m = env.priv m) ∧
   (((out.ctl = .blocked ∨ out.ctl = .fuel) ∧ SyncRun L nk b out.events fun k q a => .sync k q a) ∨
    (out.ctl = .ret (some (.int (-1))) ∧ b = 0 ∧ SyncRun L nk b out.events syncWbPc) ∨
-   (∃ v x, out.ctl = .ret (some v) ∧ dec L v = some x ∧ x ≠ 0 ∧
-      SyncRun L nk b out.events fun k q a => syncGotPc k q a x))
+   (∃ v, out.ctl = .ret (some v) ∧ v ≠ .int 0 ∧ v ∈ inp ∧ .ld (.field (.obj nk) "next") v 1 ∈ out.events ∧
+      ∀ x, dec L v = some x → SyncRun L nk b out.events fun k q a => syncGotPc k q a x))
 
 theorem sync_next_run {fuel : Nat} {env : Env} {inp : List Val} {r : Except String Out}
     (hE : exec fuel Gen.Src.«___cds_wfcq_node_sync_next» env inp = r) (nk : Nat) (b : Int)
-    (h1 : env.vars "node" = some (.ptr (.obj nk))) (h2 : env.vars "blocking" = some (.int b))
-    (hwt : ∀ v ∈ inp, Typed L v) : ∃ out, r = .ok out ∧ SyncRes L nk b env out := by
+    (h1 : env.vars "node" = some (.ptr (.obj nk))) (h2 : env.vars "blocking" = some (.int b)) :
+    ∃ out, r = .ok out ∧ SyncRes L nk b env inp out := by
   subst hE
   rw [show Gen.Src.«___cds_wfcq_node_sync_next» = Stmt.seq _ (.seq _ (.seq (.loop syncBody) _)) from rfl]
   simp only [exec, eval, asLoc, bind, Except.bind, Env.setVar, Env.setPriv, if_true, block]
   obtain ⟨out, evs, hit, hevs, hwt2, hpriv2, hc2, hpost⟩ := sync_loop L fuel nk b fuel
     { vars := fun y => if y = "_t1" then some (Val.int 0) else env.vars y,
       priv := fun m => if m = Loc.glob "&attempt" then some (.int 0) else env.priv m } inp [] 0
-    (by simp [h1]) (by simp [h2]) (by simp) hwt
+    (by simp [h1]) (by simp [h2]) (by simp)
   simp only [hit]
   have hpriv : ∀ m, m ≠ .glob "&attempt" → out.env.priv m = env.priv m := by
     intro m hm; rw [hpriv2 m hm]; simp [hm]
   simp only [List.nil_append] at hevs
-  rcases hpost with ⟨hc, hr⟩ | ⟨hc, hb', hr⟩ | ⟨v, x, hc, hn, hx, hx0, hr⟩
+  rcases hpost with ⟨hc, hr⟩ | ⟨hc, hb', hr⟩ | ⟨v, hc, hn, hv0, hmem, hld, hr⟩
   · rcases hc with hc | hc <;> simp only [hc] <;>
       exact ⟨_, rfl, hwt2, hpriv, Or.inl ⟨by simp [hc], by simpa [hevs] using hr⟩⟩
   · simp only [hc]
     exact ⟨_, rfl, hwt2, hpriv, Or.inr (Or.inl ⟨rfl, hb', by simpa [hevs] using hr⟩)⟩
   · simp only [hc, hn]
-    exact ⟨_, rfl, hwt2, hpriv, Or.inr (Or.inr ⟨v, x, rfl, hx, hx0, by simpa [hevs] using hr⟩)⟩
+    exact ⟨_, rfl, hwt2, hpriv, Or.inr (Or.inr ⟨v, rfl, hv0, hmem, by simpa [hevs] using hld,
+      fun x hx => by simpa [hevs] using hr x hx⟩)⟩
 
 /-! ## statements in refinement form for the functions used on their own -/
 
@@ -435,6 +438,26 @@ theorem empty_refines_env (fuel : Nat) (env : Env) (hk tk q : Nat) (k : K) (inp 
     rcases hp' with ⟨rfl, h⟩ | ⟨rfl, h⟩ <;> simp [h]
   · exact hp'
 
+/-- event-typed form: `sync_next` never fails; if every value it *loaded* is NULL or an object pointer, its labels are
+L2's.  (No assumption on the oracle value consumed by the void `CDS_WFCQ_WAIT_SLEEP`.) -/
+theorem sync_next_refines_env' (fuel : Nat) (env : Env) (nk a q : Nat) (k : K) (b : Int) (inp : List Val)
+    (h1 : env.vars "node" = some (.ptr (.obj nk))) (h2 : env.vars "blocking" = some (.int b))
+    (ha : L.addr nk = some a) (hk : k.blocking = decide (b ≠ 0)) :
+    ∃ out, exec fuel Gen.Src.«___cds_wfcq_node_sync_next» env inp = .ok out ∧
+      ((∀ l v mo, Event.ld l v mo ∈ out.events → Typed L v) →
+        ∃ p', lrun (.sync k q a) (out.events.filterMap (absEv L)) = some p' ∧
+          (((out.ctl = .blocked ∨ out.ctl = .fuel) ∧ p' = .sync k q a) ∨
+           (out.ctl = .ret (some (.int (-1))) ∧ b = 0 ∧ p' = syncWbPc k q a) ∨
+           (∃ v x, out.ctl = .ret (some v) ∧ dec L v = some x ∧ x ≠ 0 ∧ p' = syncGotPc k q a x))) := by
+  obtain ⟨out, h, -, -, hres⟩ := sync_next_run L (fuel := fuel) (inp := inp) rfl nk b h1 h2
+  refine ⟨out, h, fun hty => ?_⟩
+  rcases hres with ⟨hc, hr⟩ | ⟨hc, hb, hr⟩ | ⟨v, hc, hv0, -, hld, hr⟩
+  · exact ⟨_, hr k q a ha hk, Or.inl ⟨hc, rfl⟩⟩
+  · exact ⟨_, hr k q a ha hk, Or.inr (Or.inl ⟨hc, hb, rfl⟩)⟩
+  · obtain ⟨x, hx⟩ := hty _ _ _ hld
+    have hx0 : x ≠ 0 := fun e => hv0 (dec_eq_zero L (e ▸ hx))
+    exact ⟨_, hr x hx k q a ha hk, Or.inr (Or.inr ⟨v, x, hc, hx, hx0, rfl⟩)⟩
+
 theorem sync_next_refines_env (fuel : Nat) (env : Env) (nk a q : Nat) (k : K) (b : Int) (inp : List Val)
     (h1 : env.vars "node" = some (.ptr (.obj nk))) (h2 : env.vars "blocking" = some (.int b))
     (ha : L.addr nk = some a) (hk : k.blocking = decide (b ≠ 0)) (hwt : ∀ v ∈ inp, Typed L v) :
@@ -443,12 +466,14 @@ theorem sync_next_refines_env (fuel : Nat) (env : Env) (nk a q : Nat) (k : K) (b
         (((out.ctl = .blocked ∨ out.ctl = .fuel) ∧ p' = .sync k q a) ∨
          (out.ctl = .ret (some (.int (-1))) ∧ b = 0 ∧ p' = syncWbPc k q a) ∨
          (∃ v x, out.ctl = .ret (some v) ∧ dec L v = some x ∧ x ≠ 0 ∧ p' = syncGotPc k q a x)) := by
-  obtain ⟨out, h, -, -, hres⟩ := sync_next_run L (fuel := fuel) (inp := inp) rfl nk b h1 h2 hwt
+  obtain ⟨out, h, -, -, hres⟩ := sync_next_run L (fuel := fuel) (inp := inp) rfl nk b h1 h2
   refine ⟨out, h, ?_⟩
-  rcases hres with ⟨hc, hr⟩ | ⟨hc, hb, hr⟩ | ⟨v, x, hc, hx, hx0, hr⟩
+  rcases hres with ⟨hc, hr⟩ | ⟨hc, hb, hr⟩ | ⟨v, hc, hv0, hmem, -, hr⟩
   · exact ⟨_, hr k q a ha hk, Or.inl ⟨hc, rfl⟩⟩
   · exact ⟨_, hr k q a ha hk, Or.inr (Or.inl ⟨hc, hb, rfl⟩)⟩
-  · exact ⟨_, hr k q a ha hk, Or.inr (Or.inr ⟨v, x, hc, hx, hx0, rfl⟩)⟩
+  · obtain ⟨x, hx⟩ := hwt v hmem
+    have hx0 : x ≠ 0 := fun e => hv0 (dec_eq_zero L (e ▸ hx))
+    exact ⟨_, hr x hx k q a ha hk, Or.inr (Or.inr ⟨v, x, hc, hx, hx0, rfl⟩)⟩
 
 /-- `_cds_wfcq_node_init_atomic(&head->node)` inside a dequeue: L2's `d3` (store `head.next := NULL`) -/
 theorem node_init_atomic_refines_env (fuel : Nat) (env : Env) (hk q nd : Nat) (b : Bool) (inp : List Val)
